@@ -258,7 +258,8 @@ NONE = Sym('<<python-None>>')      # a hook answers a call with the value None
 
 class Interp:
     def __init__(self, model=None, scope=None, hooks=None, max_iter=1,
-                 max_states=40000, exc_edges=True, record_conds=False, inline=0, precise_exc=False, heap=False):
+                 max_states=40000, exc_edges=True, record_conds=False, inline=0, precise_exc=False, heap=False, generators=False):
+        self.generators = generators    # interpret calls of generator helpers eagerly (their value is an iterator over the yields)
         self.heap = heap                # instantiating a repository class gives a mutable Obj instead of an Inst
         self.precise_exc = precise_exc  # exceptions only where one can occur: failed lookups on known containers, unknown calls
         self._maythrow = 0
@@ -464,6 +465,38 @@ class Interp:
             if txt not in s.env:
                 for _s, b in self.expr(t.value, s, fork=False):
                     base = b
+            setter = None
+            if self.heap and isinstance(base, Obj) and isinstance(base.cls, M.ClassInfo) and self.model is not None \
+               and self.inline_depth > 0 and len(self._inline_stack) < self.inline_depth:
+                for k in self.model.mro(base.cls):
+                    if isinstance(k, M.ClassInfo) and t.attr in k.properties:
+                        setter = k.properties[t.attr].get('set')
+                        break
+                    if isinstance(k, M.ClassInfo) and (t.attr in k.methods or t.attr in k.assigns):
+                        break
+            if setter is not None:
+                # obj.prop = value where prop has a setter: interpret the setter on the object
+                key = '__val@%d' % len(self._inline_stack)
+                s.env[key] = v
+                call = ast.Call(func=ast.Attribute(value=t.value, attr=t.attr, ctx=ast.Load()), args=[ast.Name(id=key, ctx=ast.Load())], keywords=[])
+                for x in ast.walk(call):
+                    if not hasattr(x, 'lineno'):
+                        x.lineno, x.col_offset, x.end_lineno, x.end_col_offset = getattr(node, 'lineno', 0), 0, getattr(node, 'lineno', 0), 0
+                self._force_callee = setter
+                try:
+                    res = self.inline(call, s.fork())
+                except AnalysisError:
+                    res = None
+                if res is not None and len(res) == 1:
+                    self._force_callee = setter
+                    res = self.inline(call, s)
+                    st = res[0][0]
+                    s.env, s.trace, s.assumed, s.flags = st.env, st.trace, st.assumed, st.flags
+                else:
+                    self.imprecise.append('setter of %s could not be interpreted (line %s)' % (txt, getattr(node, 'lineno', '?')))
+                self._force_callee = None
+                s.env.pop(key, None)
+                return
             if isinstance(base, (Obj, TextObj)):
                 base.attrs[t.attr] = v
             else:
@@ -606,6 +639,9 @@ class Interp:
             it = self.materialize(it, s2)
             if isinstance(it, Iter):
                 s2.env['__iter@%d' % n.lineno] = it
+            elif isinstance(it, list) and is_concrete(it) and len(it) <= 64 and (self.heap or any(v is it for v in s2.env.values() if isinstance(v, list))):
+                # a list that the body can reach: iterate over the live object (removals during the loop skip items, as in Python)
+                s2.env['__list@%d' % n.lineno] = it
             r = self._loop(n, s2, it)
             for k, lst in r.items():
                 res.setdefault(k, []).extend(lst)
@@ -624,10 +660,19 @@ class Interp:
             concrete_items = list(iterable)
         k = 0
         while cur:
-            bound = (len(concrete_items) if concrete_items is not None else self.max_iter)
+            bound = (max(len(concrete_items), 64 if isinstance(iterable, list) else 0) if concrete_items is not None else self.max_iter)
             enter = []
             for st in cur:
                 if is_for:
+                    live = st.env.get('__list@%d' % n.lineno) if isinstance(iterable, list) else None
+                    if isinstance(live, list):
+                        if k < len(live):
+                            self.assign(n.target, live[k], st, n, quiet=True)
+                            enter.append(st)
+                        else:
+                            st.env.pop('__list@%d' % n.lineno, None)
+                            exits.append(st)
+                        continue
                     if concrete_items is not None:
                         if k < len(concrete_items):
                             self.assign(n.target, concrete_items[k], st, n, quiet=True)
@@ -932,6 +977,14 @@ class Interp:
         f = call.func
         fn = self.scope
         node = getattr(fn, 'node', None)
+        forced = getattr(self, '_force_callee', None)
+        if forced is not None:
+            self._force_callee = None
+            recv = None
+            for _s, b in self.expr(f.value, s, fork=False):
+                recv = b
+            self._receiver = recv
+            return forced.node, True, forced
         if isinstance(f, ast.Name):
             cur = s.env.get(f.id)
             if isinstance(cur, Sym) and cur.label.startswith('func:') and isinstance(cur.attrs.get('node'), ast.FunctionDef):
@@ -999,8 +1052,9 @@ class Interp:
         flt = getattr(self.h, 'should_inline', None)
         if flt is not None and not flt(fname, node, info):
             return None
+        is_gen = any(isinstance(x, (ast.Yield, ast.YieldFrom)) for x in M.walk_no_nested(node))
         if (node in self._inline_stack and receiver is None and not self.heap) or self._inline_stack.count(node) >= 4 \
-           or any(isinstance(x, (ast.Yield, ast.YieldFrom)) for x in M.walk_no_nested(node)):
+           or any(isinstance(x, ast.YieldFrom) for x in M.walk_no_nested(node)) or (is_gen and not self.generators):
             if self.heap:
                 self.imprecise.append('recursive helper %s not interpreted (line %s)' % (fname, getattr(call, 'lineno', '?')))
             return None
@@ -1054,6 +1108,9 @@ class Interp:
                     for kk, vv in s.env[k].items():
                         cs.env.setdefault(kk, vv)
         cs.env.update(local)
+        ykey = '__yields@%d' % len(self._inline_stack)
+        if is_gen:
+            cs.env[ykey] = []           # a generator function: interpreted eagerly, its call yields an iterator over the values
         ckey = '__caller@%d' % len(self._inline_stack)
         cs.env[ckey] = s.env          # travels (and is forked) with the callee state: aliasing with caller locals is kept
         if receiver is not None:
@@ -1103,6 +1160,10 @@ class Interp:
                 if kind == 'raise':
                     ns.env['__exc'] = v or 'Exception'      # propagates in the caller (block() turns it into a raise)
                     results.append((ns, TOP))
+                    continue
+                if is_gen:
+                    ys = ns.env.pop(ykey, None)
+                    results.append((ns, Iter(ys) if isinstance(ys, list) else TOP))
                     continue
                 results.append((ns, v if kind == 'return' else None))
         for st, v in outs.get('raise', []):
@@ -1375,7 +1436,7 @@ class Interp:
                     return v
             r = m.getattr_static(base, attr)
             return self._from_model(r)
-        if isinstance(base, M.External) and base.name in ('re', 'operator') and not attr.startswith('_'):
+        if isinstance(base, M.External) and base.name in ('re', 'operator', 'os', 'os.path', 'glob', 'posixpath') and not attr.startswith('_'):
             return M.External('%s.%s' % (base.name, attr))
         if isinstance(base, M.External) and base.name == 'string' and attr in ('digits', 'ascii_letters', 'ascii_lowercase', 'ascii_uppercase',
                                                                               'hexdigits', 'octdigits', 'punctuation', 'whitespace'):
@@ -1568,6 +1629,9 @@ class Interp:
 
     def ev_Yield(self, n, s):
         v = self.ev(n.value, s) if n.value is not None else None
+        keys = [k for k in s.env if k.startswith('__yields@')]
+        if keys:
+            s.env[max(keys, key=lambda k: int(k.split('@')[1]))].append(v)
         self.emit(s, ('yield', v if (is_concrete(v) or _known(v)) else _text(n.value), n.lineno))
         return TOP
 
@@ -1731,6 +1795,11 @@ class Interp:
                 v = self.ev(k.value, s)
                 if k.arg is not None:
                     kwargs[k.arg] = v
+        self.ncalls = getattr(self, 'ncalls', 0) + 1
+        r = self.h.call(self, n, fname, args, kwargs, s)
+        self.emit(s, ('call', fname, _evargs(args, n.args), n.lineno))
+        if r is not None:
+            return None if r is NONE else r
         # evaluate callee for bound-method detection
         fval = None
         if isinstance(n.func, ast.Attribute):
@@ -1740,16 +1809,33 @@ class Interp:
             fval = self.ev_Name(n.func, s)
         else:
             fval = self.ev(n.func, s)
-        self.ncalls = getattr(self, 'ncalls', 0) + 1
-        r = self.h.call(self, n, fname, args, kwargs, s)
-        self.emit(s, ('call', fname, _evargs(args, n.args), n.lineno))
-        if r is not None:
-            return None if r is NONE else r
         if self.inline_depth > 0 and len(self._inline_stack) < self.inline_depth:
             # helper used inside an expression: inline only when it has a single outcome
             res = self._inline_single(n, s)
             if res is not None:
                 return res[0]
+        if self.heap and fname in ('setattr', 'getattr', 'delattr', 'hasattr') and fname not in s.env and len(args) >= 2 \
+           and isinstance(args[0], (Obj, TextObj)) and isinstance(args[1], str):
+            o, nm = args[0], args[1]
+            if fname == 'setattr' and len(args) == 3:
+                o.attrs[nm] = args[2]
+                return None
+            if fname == 'delattr':
+                if nm in o.attrs:
+                    del o.attrs[nm]
+                elif self.precise_exc:
+                    s.env['__exc'] = 'AttributeError'
+                return None
+            if fname == 'hasattr' and nm.startswith('@'):
+                return nm in o.attrs
+            if fname == 'getattr' and nm.startswith('@'):
+                if nm in o.attrs:
+                    return o.attrs[nm]
+                if len(args) == 3:
+                    return args[2]
+                if self.precise_exc:
+                    s.env['__exc'] = 'AttributeError'
+                return TOP
         if fname == 'iter' and 'iter' not in s.env and len(args) == 1 and not kwargs:
             if isinstance(args[0], (list, tuple)):
                 return Iter(args[0])
@@ -1775,6 +1861,13 @@ class Interp:
             import re as _re
             try:
                 return _re.sub(*args, **kwargs)
+            except Exception:
+                return TOP
+        if isinstance(fval, M.External) and fval.name in ('os.path.join', 'os.path.basename', 'os.path.dirname', 'os.path.splitext', 'os.path.split',
+                                                          'os.path.normpath') and args and all(isinstance(a, str) for a in args) and not kwargs:
+            import posixpath as _pp
+            try:
+                return getattr(_pp, fval.name.rsplit('.', 1)[1])(*args)
             except Exception:
                 return TOP
         if isinstance(fval, M.External) and fval.name.startswith('operator.') and all(is_concrete(a) for a in args) and not kwargs:
